@@ -54,6 +54,8 @@ func underFastEnabled(in ssa.Instruction) bool {
 
 func checkC09(c *Ctx) {
 	l := c.L
+	c.rule("PASS-root-record", "existence and identity of a version come from its stored root record, not from the node cache or the working tree", 2)
+	checkRootRecord(c, "PASS-root-record")
 	c.rule("EFFECT-rollback-frame", "working state written by Set/Remove ⊆ state reset by Rollback", 3)
 	c.rule("PASS-reset-counters", "DeleteVersionsFrom resets cached version counters", 2)
 	c.rule("ORDER-overwrite-sequence", "LoadVersionForOverwriting step order", 3)
